@@ -53,7 +53,34 @@ fn gen_pair(rng: &mut Rng) -> Pair {
         // selected alternative / class field. The target itself contains no reference of that kind.
         let v = *rng.pick(&[9i64, 200, 70000]);
         let lv = format!("@Lv0 INTEGER ::= {v}\n");
-        return match rng.below(5) {
+        return match rng.below(8) {
+            5 => Pair {
+                // two anonymous nested types that both use COMPONENTS OF (last position, where a single level works)
+                family: "components-of",
+                class: "SEQUENCE,position=last,two-nested-anonymous-users".into(),
+                helpers: "@HTs ::= SEQUENCE { hq0 INTEGER, hq1 BOOLEAN }\n".into(),
+                sugared: "Tq1 ::= SEQUENCE { fq0 SEQUENCE { gq0 NULL, COMPONENTS OF @HTs }, fq1 SEQUENCE { gq1 NULL, COMPONENTS OF @HTs } }\n".into(),
+                expanded: "Tq1 ::= SEQUENCE { fq0 SEQUENCE { gq0 NULL, hq0 INTEGER, hq1 BOOLEAN }, fq1 SEQUENCE { gq1 NULL, hq0 INTEGER, hq1 BOOLEAN } }\n".into(),
+            },
+            6 => {
+                // the CHOICE is reached through 1..2 type references
+                let depth = 1 + rng.below(2);
+                let mut helpers = "@HTc ::= CHOICE { sq0 INTEGER (0..5), sq1 IA5String }\n".to_string();
+                let mut last = "@HTc".to_string();
+                for d in 0..depth {
+                    helpers.push_str(&format!("@HTr{d} ::= {last}\n"));
+                    last = format!("@HTr{d}");
+                }
+                Pair { family: "selection-type", class: format!("assignment,choice-through-{depth}-type-references"), helpers, sugared: format!("Tq1 ::= sq1 < {last}\n"), expanded: "Tq1 ::= IA5String\n".into() }
+            }
+            7 => Pair {
+                // the template's own tag belongs to every instance
+                family: "parameterized-type",
+                class: "params=1,instantiations=1,tagged-template".into(),
+                helpers: "@HTp {T} ::= [7] SEQUENCE { aq1 T, aq2 BOOLEAN OPTIONAL }\n".into(),
+                sugared: "Tq1 ::= @HTp {INTEGER}\n".into(),
+                expanded: "Tq1 ::= [7] SEQUENCE { aq1 INTEGER, aq2 BOOLEAN OPTIONAL }\n".into(),
+            },
             0 => Pair {
                 family: "components-of",
                 class: "SEQUENCE,position=last,copied-component-has-value-reference".into(),
@@ -165,6 +192,8 @@ fn gen_pair(rng: &mut Rng) -> Pair {
             }
             let kind = if rng.chance(1, 4) { "SET" } else { "SEQUENCE" };
             let where_ = if n == 0 { "only" } else if pos == 0 { "first" } else if pos == n { "last" } else { "middle" };
+            // X.680 27.x: COMPONENTS OF inside a SET names a SET type (a SET needs distinct tags: AUTOMATIC TAGS provides them)
+            let helpers = if kind == "SET" { helpers.replace("@HTs ::= SEQUENCE {", "@HTs ::= SET {") } else { helpers };
             Pair {
                 family: "components-of",
                 class: format!("{kind},position={where_},marker={},referenced-extensible={}", marker > 0, !hext.is_empty()),
